@@ -314,6 +314,8 @@ type implResult struct {
 	panicked string
 	viaOps   bool
 	raw      bool
+	// Form XObject accounting after the call (scoped runs only)
+	bytes, depth, saved int
 }
 
 // repeatsShow: does the program show one string id more than once (a form invoked
@@ -473,6 +475,15 @@ func checkText(c *hx.Ctx, family string, p []op, oracle bool) {
 			}
 			c.Check("C08/scoped-panic", sres.panicked == "", sk, func() string { return sres.panicked })
 			c.Op("c08.gs "+toks, implLine(sres, r))
+			// the same document through the model of names, resources and scopes
+			if line, ok := describe(&docCase{res: doc.res, objs: doc.objs, progs: [][]byte{doc.page}}); ok {
+				c.Op("c08.docp "+line, docpReply(sres, r))
+				if sres.panicked == "" && (sres.err != nil || len(sres.frags) == len(r.shows)) {
+					c.Op("c08.docx "+line, docxReply(sres.frags, sres.err, r, sres.bytes, sres.depth, sres.saved))
+				}
+			} else {
+				c.Count("docp-dropped")
+			}
 			nt := false
 			if oracle && sres.panicked == "" {
 				nt = textOracles(c, "C08/scoped-", sres, r, sk)
@@ -671,7 +682,13 @@ func Run(c *hx.Ctx) {
 		"indirect objects, a repeated form being one object); pages of 2-4 sibling forms with children of their own and re-invocations; exhaustive over all ordered pairs of 28 " +
 		"positioning operators on a 5-matrix alphabet in 2 layouts; the property's quoted witnesses; q/Q/cm/line programs for the graphics " +
 		"extractor. Cases whose float evaluation could round are dropped by a big.Rat exactness guard. Non-trivial = at least one fragment " +
-		"whose origin the property determines was compared."
+		"whose origin the property determines was compared. DOCUMENTS (ops c08.doc, c08.docx0; every scoped layout also as c08.docp, c08.docx): " +
+		"object tables of 1-5 form objects plus images, non-streams, undecodable, empty and unparsable forms, bound at random to names in the " +
+		"page's and the forms' resource dictionaries (shared, cyclic or acyclic, unbound names, the /-prefixed retry), resources direct, indirect, " +
+		"missing or of a wrong type at both levels, /Matrix well-formed or malformed, contents of positioned shows, cm, q/Q (mostly balanced), Do and " +
+		"malformed operations (wrong arity, wrong operand types, unknown operators), 1-4 Extract calls on one extractor, one q…Q program run twice, " +
+		"and heavy graphs (self-drawing forms with fan-out 4-8, chains of 10 with fan-out 3-10, mutual recursion, forms of 5-30 MiB, the byte-exact " +
+		"budget boundary); integer monomial matrices under 0 Tz, so every origin and size is exact; non-trivial there = at least one form executed."
 	if !quoteParses {
 		c.Note("the pinned content-stream parser rejects the ' and \" operators (DESIGN §7 B3, owned by C06): programs containing them are fed to text.Extractor.Extract as parsed operations")
 	}
@@ -711,6 +728,7 @@ func Run(c *hx.Ctx) {
 	for i := 0; i < c.N(40, 400); i++ {
 		checkAdvance(c, c.Rng.Fork(uint64(3<<32+i)))
 	}
+	runDocs(c)
 	c.Rep.Exhaustive = false
 }
 
@@ -718,6 +736,12 @@ func Replay(c *hx.Ctx, k map[string]interface{}) {
 	detectQuote()
 	prog, _ := k["prog"].(string)
 	fam, _ := k["family"].(string)
+	if strings.HasPrefix(fam, "doc-") {
+		idx, _ := k["index"].(float64)
+		replayDoc(c, fam, int(idx))
+		fmt.Printf("replayed %s document #%d\n", fam, int(idx))
+		return
+	}
 	p, _, err := parseTokens(strings.Fields(prog))
 	if err != nil {
 		fmt.Println("replay: cannot parse program:", err)
